@@ -27,7 +27,7 @@ for mid in ids:
             replay = {k: rj.get(k) for k in ("kind", "case", "expected", "got", "why", "differs") if k in rj}
         except Exception as e:
             replay = {"error": str(e)}
-    meta["verif_run"] = {"check": f"./check {prop} --tier quick", "exit": rc, "violation_line": vio[0] if vio else None,
+    meta["verif_run"] = {"check": f"./check {prop} --tier quick", "seed": os.environ.get("VERIF_SEED", "default (20261002)"), "exit": rc, "violation_line": vio[0] if vio else None,
                          "summary": summary[-1] if summary else None, "replay": replay, "wall_s": round(time.time() - t0, 1)}
     json.dump(meta, open(f"{d}/meta.json", "w"), indent=1, ensure_ascii=False)
     print(mid, "->", "DETECTED" if rc == 1 and vio else f"MISSED rc={rc}", "|", (vio[0] if vio else "")[:120], "|", (summary[-1] if summary else "")[-120:])
